@@ -124,6 +124,7 @@ type cluster struct {
 	httpLog   []*simrt.HTTPReqInfo
 	httpFault func(r *simrt.HTTPReqInfo) simrt.HTTPVerdict
 	hookFn    func(g *simrt.G, name string, args ...interface{})
+	punchLag  int64                 // ms: upper bound of the per-hole delay of the background puncher (0 = eager)
 	diskArms  map[string]*clDiskArm // node name -> one-shot data-file fault (guarded by mu)
 }
 
@@ -212,6 +213,14 @@ func newCluster(w *simrt.World, res *Result, root string, rf int, size int64, nr
 		return simrt.HTTPDeliver
 	}
 	w.HookFn = func(g *simrt.G, name string, args ...interface{}) {
+		if name == "AddPunchHoleTimeout" && c.punchLag > 0 && g != nil && g.Node != nil {
+			// a lagging hole puncher: each queued hole waits a seeded while, so that punching
+			// overlaps later writes, snapshots, rebuild copies and reloads
+			n := w.Counter("punchlag:" + g.Node.Name)
+			d := time.Duration(w.Rand(fmt.Sprintf("punchlag:%s:%d", g.Node.Name, n))%uint64(c.punchLag)) * time.Millisecond
+			c.res.stat("puncher_delayed", 1)
+			simrt.Sleep(d)
+		}
 		if c.hookFn != nil {
 			c.hookFn(g, name, args...)
 		}
